@@ -92,6 +92,38 @@ TermHolds(c, r) ==
     [] c = "OutputsFinite"           -> r.exc = "none" => r.finite
 TermFailing(r) == {c \in Range(TermClauses) : ~TermHolds(c, r)}
 
+(* ---------------- primitive distance functions (C10, C11): kind = "prim" ----------------
+   one record per call of a function of distance3d.distance on lattice primitives (or their lifts):
+   r.on1, r.on2   distance of the returned points to their primitives, ticks of 1e-9*L/8
+   r.consist      | |p1-p2| - d |, ticks of 1e-6*L/8
+   r.dneg         d < 0;   r.zeroCommon  (d = 0 => the two points coincide within 1e-9*L)
+   r.dErr         max(0, d - Dist) against the TLC-certified exact distance of the core polytopes (lines and
+                  planes are represented by long segments / large rectangles that contain the optimum), ticks of
+                  the function's tolerance (1e-6*L, 5e-3*L for line_to_circle);  r.cert the same against a float
+                  certificate (separating plane for convex pairs, closed form / Lipschitz grid for the circle)
+   r.optJudged    FALSE where no oracle applies (counted, never a violation) *)
+PrimClauses10 == <<"NoException", "Finite", "NonNegative", "On1", "On2", "Consistent", "ZeroImpliesCommon", "ORACLE_CertInvalid">>
+PrimClauses11 == <<"NoException", "ORACLE_CertInvalid", "GlobalMinimum">>
+PrimHolds(c, r) ==
+  LET ok == r.exc = "none" /\ r.finite IN
+  CASE c = "NoException"        -> r.exc = "none"
+    [] c = "Finite"             -> r.exc = "none" => r.finite
+    [] c = "NonNegative"        -> ok => ~r.dneg
+    [] c = "On1"                -> ok => r.on1 <= Slack
+    [] c = "On2"                -> ok => r.on2 <= Slack
+    [] c = "Consistent"         -> ok => r.consist <= Slack
+    [] c = "ZeroImpliesCommon"  -> ok => r.zeroCommon
+    [] c = "ORACLE_CertInvalid" -> r.exact => CertOK(r)
+    [] c = "GlobalMinimum"      -> /\ (ok /\ r.exact /\ CertOK(r)) => r.dErr <= Slack
+                                   /\ (ok /\ ~r.exact /\ r.optJudged) => r.cert <= Slack
+(* Named input pattern for a known finding: a line (segment) that misses the axis of the circle
+   (centre + t * normal) only by floating-point rounding of a rigid motion (r.nearAxis, described by the harness
+   from the lattice scene: exactly on the axis before the lift, lifted by a non-identity motion) *)
+PrimFailing(r) ==
+  LET f == {c \in Range(IF r.prop = "C10" THEN PrimClauses10 ELSE PrimClauses11) : ~PrimHolds(c, r)} IN
+  IF f # {} /\ r.nearAxis /\ f \subseteq {"On1", "On2", "Consistent", "GlobalMinimum", "ZeroImpliesCommon"}
+  THEN f \cup {"ZONE_NearAxis"} ELSE f
+
 (* Named trace pattern for a known finding (DESIGN section 8): the query ended on a simplex of 2..4
    points whose smallest extent is below 1e-9 of its largest (flatDec = decimal exponent of that ratio,
    observed by the harness at the library's final witness-point computation; -99 = exactly degenerate).
